@@ -310,8 +310,23 @@ func cmdCheck(args []string) int {
 				continue
 			}
 			got := observesOf(res.Output)
-			okRun := strings.Contains(res.Output, "VERIF-DONE") && !strings.Contains(res.Output, "VERIF-ASSUME-FAILED") &&
-				!strings.Contains(res.Output, "VERIF-VIOLATION") && !strings.Contains(res.Output, "VERIF-ASSERT-FAILED")
+			// a native run may legitimately hit a LISTED known-finding class that the engine's schedule did not
+			// (schedule-dependent defects); anything else must be absent
+			newViol := false
+			for _, ln := range strings.Split(res.Output, "\n") {
+				ln = strings.TrimSpace(ln)
+				if strings.HasPrefix(ln, "VERIF-VIOLATION ") || strings.HasPrefix(ln, "VERIF-ASSERT-FAILED ") {
+					rest := ln[strings.Index(ln, " ")+1:]
+					cls := rest
+					if i := strings.Index(rest, "|"); i >= 0 {
+						cls = rest[:i]
+					}
+					if _, isKnown := known[cls]; !isKnown || cls == "" {
+						newViol = true
+					}
+				}
+			}
+			okRun := strings.Contains(res.Output, "VERIF-DONE") && !strings.Contains(res.Output, "VERIF-ASSUME-FAILED") && !newViol
 			if okRun && strings.Join(got, "\n") == strings.Join(vc.observes, "\n") {
 				jr.Validated++
 				validated++
